@@ -47,6 +47,14 @@ type DialScenario struct {
 	PreLen bool `json:"pre_serialised,omitempty"`
 	// the application's tls.Config names more protocols than the fingerprint's ALPN extension: the wire carries the spec's
 	AltALPN bool `json:"alt_alpn,omitempty"`
+	// the client prefers QUIC v2, the server only speaks v1: every dial goes through Version Negotiation and the spec's
+	// packet numbering carries on in the connection that replaces the first attempt
+	VN bool `json:"vn,omitempty"`
+	// the application's Config has a token store of its own; a spec that synthesises tokens still decides what the Initial carries
+	CfgTokens bool `json:"cfg_token_store,omitempty"`
+	// every connection is used once more after a rest of 1.5 s (longer than the client Config's idle timeout when the spec
+	// advertises none: then the connection has no idle timeout of its own)
+	LateUse bool `json:"late_use,omitempty"`
 }
 
 func (s *DialScenario) KSeed() uint64 { return s.Seed }
@@ -195,10 +203,20 @@ func genDial(seed uint64, tier string) KScenario {
 	sc.Early = sc.Dials > 1 && !sc.Quick && r.P(0.3)
 	sc.PreLen = r.P(0.2)
 	sc.AltALPN = r.P(0.25)
+	sc.VN = !sc.Early && r.P(0.12)
+	sc.CfgTokens = r.P(0.2)
+	if d := sc.Cfg.Derive; d != nil && r.P(0.15) {
+		// the spec advertises no max_idle_timeout; the Config's own (short) value must not be enforced in its place
+		d.Suppress = append(d.Suppress, 0x01)
+		sc.Cfg.IdleMS = [2]int64{1000, 30000}
+		sc.LateUse = true
+	}
 	return sc
 }
 
 type dialCapture struct {
+	pnSkip int  // Initial packet numbers used up by the attempt that Version Negotiation ended
+	onlyPN bool // judge packet numbers and their encoding only (the connection that follows a Version Negotiation)
 	conn   *TapConn
 	err    error
 	echoOK bool
@@ -227,6 +245,13 @@ func runDial(t *testing.T, ksc KScenario, res *KResult) {
 	}
 	if q := wQTPExt(nodes.Spec); sc.PreLen && q != nil {
 		q.Len()
+	}
+	if sc.VN {
+		nodes.SQ.Versions = []quic.Version{quic.Version1}
+		nodes.CQ.Versions = []quic.Version{quic.Version2, quic.Version1}
+	}
+	if sc.CfgTokens {
+		nodes.CQ.TokenStore = quic.NewLRUTokenStore(2, 4)
 	}
 	if sc.AltALPN {
 		nodes.CTLS.NextProtos = []string{wALPN, "h3-29"}
@@ -400,7 +425,7 @@ func runDial(t *testing.T, ksc KScenario, res *KResult) {
 					cp.echoOK = true
 				}
 			}
-			if err == nil && cp.echoOK && sc.Quick {
+			if err == nil && cp.echoOK && (sc.Quick || sc.LateUse) {
 				// use the connection once more after the closing period of the previous connection (3 PTO) has ended
 				time.Sleep(1500 * time.Millisecond)
 				cp.echoOK = false
@@ -468,7 +493,9 @@ func runDial(t *testing.T, ksc KScenario, res *KResult) {
 			// a first destination connection ID of fewer than 8 bytes: servers ignore such Initials (RFC 9000 7.2), C02 does
 			// not claim the dial; C10 and C11 still want the flight as specified
 			res.Probe("short-dcid-dial-ignored")
-			if cp.conn != nil && cp.conn.CH != nil {
+			// (with Version Negotiation on top, every dial makes two connections with one-byte IDs: the observer cannot tell
+			// which of them it is looking at)
+			if cp.conn != nil && cp.conn.CH != nil && !sc.VN {
 				checkInitialFlight(w, nodes, sc, di, cp, report, res)
 				checkClientHello(w, nodes, sc, di, cp, report, res)
 			}
@@ -493,6 +520,17 @@ func runDial(t *testing.T, ksc KScenario, res *KResult) {
 			feasible := d == nil || !multi || d.Builder == "random" || d.Builder == "multi" || d.Builder == "flight" || d.Builder == "rflight" || len(d.Plans) > 0 ||
 				((d.Builder == "" || d.Builder == "keep") && strings.HasPrefix(sc.Cfg.Client, "chrome"))
 			nothingSent := len(w.Log[0]) == sentBefore
+			if sc.VN && !nothingSent {
+				// the connection that replaces the first attempt after Version Negotiation lays its flight out afresh: when
+				// that fails, nothing of *that* connection has been sent (the observer has seen one connection only)
+				nconn := 0
+				for _, c := range w.Tap.Conns[before:] {
+					if !c.Shadow {
+						nconn++
+					}
+				}
+				nothingSent = nconn <= 1
+			}
 			if feasible && nothingSent && cp.err != nil && (strings.Contains(cp.err.Error(), "does not fit the packet buffer") || strings.Contains(cp.err.Error(), "BuildFlight")) {
 				feasible = false // rejected before anything was sent: the layout cannot carry this ClientHello
 			}
@@ -523,7 +561,7 @@ func runDial(t *testing.T, ksc KScenario, res *KResult) {
 		if di > 0 {
 			res.Probe("redial-ok")
 		}
-		if (cp.conn == nil || cp.conn.CH == nil) && wo.muted {
+		if ((cp.conn == nil || cp.conn.CH == nil) || sc.VN) && wo.muted {
 			res.Probe("observer-cannot-separate-dials-with-equal-short-dcid")
 			continue
 		}
@@ -533,6 +571,31 @@ func runDial(t *testing.T, ksc KScenario, res *KResult) {
 		}
 		checkInitialFlight(w, nodes, sc, di, cp, report, res)
 		checkClientHello(w, nodes, sc, di, cp, report, res)
+		if sc.VN && nodes.Spec != nil && !wo.muted {
+			// the connection that replaced the first attempt: its Initial packets carry on with the spec's numbering
+			var last *TapConn
+			for _, c := range w.Tap.Conns[before:] {
+				if !c.Shadow && c != cp.conn {
+					last = c
+				}
+			}
+			if last != nil && len(firstFlight(last)) > 0 {
+				used := 0
+				for _, p := range cp.conn.Packets {
+					// (the packet with which the first attempt takes its leave does not count: the numbering carries on
+					// from the packets sent before the Version Negotiation packet arrived)
+					closing := false
+					for i := range p.Frames {
+						closing = closing || p.Frames[i].Name == "CONNECTION_CLOSE"
+					}
+					if p.Dir == 0 && p.Type == TapInitial && !closing {
+						used++
+					}
+				}
+				res.Probe("initial-flight-after-version-negotiation")
+				checkInitialFlight(w, nodes, sc, di, &dialCapture{conn: last, pnSkip: used, onlyPN: true}, report, res)
+			}
+		}
 		if alpn0 != nil {
 			for _, e := range cp.conn.CH.Exts {
 				// body: 2-byte list length, then the length-prefixed protocol names
@@ -636,17 +699,20 @@ func checkInitialFlight(w *World, n *Nodes, sc *DialScenario, di int, cp *dialCa
 		if len(p.SCID) != ips.SrcConnIDLength {
 			report("C10", "source connection ID length differs from the spec", "dial #%d pkt %d: %d, spec %d", di, i, len(p.SCID), ips.SrcConnIDLength)
 		}
-		if p.PN != wantPN+int64(i) {
-			report("C10", "Initial packet numbers do not start at the specified number and increase by one", "dial #%d pkt %d: pn %d, want %d", di, i, p.PN, wantPN+int64(i))
+		if p.PN != wantPN+int64(cp.pnSkip+i) {
+			report("C10", "Initial packet numbers do not start at the specified number and increase by one", "dial #%d pkt %d: pn %d, want %d", di, i, p.PN, wantPN+int64(cp.pnSkip+i))
 		}
 		wantLen := 0
 		if l := ips.InitPacketNumberLengths; len(l) > 0 {
-			wantLen = int(l[min(i, len(l)-1)])
+			wantLen = int(l[min(cp.pnSkip+i, len(l)-1)])
 		} else if ips.InitPacketNumberLength != 0 {
 			wantLen = int(ips.InitPacketNumberLength)
 		}
 		if wantLen != 0 && p.PNLen != wantLen {
 			report("C10", "packet number encoding length differs from the spec", "dial #%d pkt %d: %d bytes, spec %d", di, i, p.PNLen, wantLen)
+		}
+		if cp.onlyPN {
+			continue
 		}
 		tl := max(ips.ClientTokenLength, len(ips.ClientTokenPrefix))
 		if ips.TokenStore == nil {
